@@ -7,6 +7,15 @@ From Repid Require Import Base Sched GenSched.
 Theorem gen_is_overdue_eq p now : gen_is_overdue p now = overdue (p_ts p) (p_ttl p) now.
 Proof. unfold gen_is_overdue, overdue. destruct (p_ttl p); reflexivity. Qed.
 
+Theorem gen_args_bucket_is_overdue_eq p now : gen_args_bucket_is_overdue p now = overdue (p_ts p) (p_ttl p) now.
+Proof. unfold gen_args_bucket_is_overdue, overdue. destruct (p_ttl p); reflexivity. Qed.
+
+Theorem gen_result_bucket_is_overdue_eq p now : gen_result_bucket_is_overdue p now = overdue (p_ts p) (p_ttl p) now.
+Proof. unfold gen_result_bucket_is_overdue, overdue. destruct (p_ttl p); reflexivity. Qed.
+
+Theorem gen_job_is_overdue_eq p now : gen_job_is_overdue p now = overdue (p_ts p) (p_ttl p) now.
+Proof. unfold gen_job_is_overdue, overdue. destruct (p_ttl p); reflexivity. Qed.
+
 Theorem gen_compute_next_eq p now : gen_compute_next p now = compute_next p now.
 Proof.
   unfold gen_compute_next, compute_next, grid_opt, grid. cbv zeta.
